@@ -154,4 +154,13 @@ struct Fallback {
     constexpr Fallback(const T &) {}
 };
 
+// m * 2^e in T by repeated exact doubling / halving (hex-float literals are C++17; every
+// intermediate is a multiple of the exactly representable result, hence exact itself).
+template <typename T>
+constexpr T ld(unsigned long long m, int e) {
+    T r = static_cast<T>(m);
+    for (; e > 0; --e) r *= T(2);
+    for (; e < 0; ++e) r /= T(2);
+    return r;
+}
 }  // namespace auv
